@@ -24,7 +24,7 @@ EXPLANATION = (
     "raise, and no float format spec is applied to an ndarray-kinded value (TypeError instead of the warning). C20.3: block framing "
     "n = chunk.size, k = len(str(n)), header #{k}{n}, address advancing by n from start_addrs. C20.4: read-back blocks are joined by "
     "concatenation (stacking unequal blocks cannot return the written bits). C20.5: SYNC rejects a record shorter than the pattern before "
-    "correlating, returns argmax of the correlation and a signal sliced from that index. Not decided: behaviour against a simulated "
+    "correlating, searches a lag window that covers every delay below one pattern length (W >= 2*l - 1), returns argmax of the correlation and a signal sliced from that index. Not decided: behaviour against a simulated "
     "instrument over call histories, SYNC under noise.")
 TRUSTED = ["numpy clip/arange/tile/split semantics", "IEEE-488.2 definite-length block header format #<k><n>", "documented PPG3204 limits as listed in the property statement"]
 
@@ -310,6 +310,36 @@ def run(ctx):
     it = Interp(pkg, assumptions={"signal_rx": ("inst", "numpy.ndarray", "ndarray"), "slots_tx": ("inst", "numpy.ndarray", "ndarray"), "sps": "notnone"})
     outs = it.run(fs_)
     rets = [o for o in outs if o.kind == "return"]
+    # the lag window: correlating rx[:W] with the l-sample pattern in 'valid' mode searches the lags 0 .. W-l; every delay below one
+    # pattern length (0 .. l-1) must be among them, i.e. W >= 2*l - 1 for every sps
+    corr_calls = [r for r in it.calls if r.callee and r.callee.split(".")[-1] in ("fftconvolve", "correlate", "convolve") and len(r.args) >= 2]
+    mode = corr_calls[0].arg(2, "mode") if len(corr_calls) == 1 else None
+    if len(corr_calls) == 1 and isinstance(mode, Const) and mode.v == "valid":
+        a0, a1 = corr_calls[0].args[0], corr_calls[0].args[1]
+        wa = a0.single_atom() if isinstance(a0, Form) else None
+        pa = a1.single_atom() if isinstance(a1, Form) else None
+        L = None
+        if pa is not None and pa[0] == "idx" and isinstance(pa[1], Form):
+            L = Form.atom(("attr", pa[1], "size"))
+            for cand in (Form.atom(("attr", pa[1], "size")), mk_fn("len", [pa[1]]), mk_fn("size", [pa[1]])):
+                if isinstance(wa, tuple) and wa[0] == "idx" and isinstance(wa[2], SliceV) and isinstance(wa[2].hi, Form) and any(vk(Form.atom(x)) == vk(cand) for x in wa[2].hi.atoms()):
+                    L = cand
+        if wa is not None and wa[0] == "idx" and isinstance(wa[2], SliceV) and isinstance(wa[2].hi, Form) and L is not None \
+                and (isinstance(wa[2].lo, Const) and wa[2].lo.v is None or (isinstance(wa[2].lo, Form) and wa[2].lo.is_zero())):
+            D = wa[2].hi - 2 * L
+            vals = []
+            for sp in (1, 2, 16):
+                d_ = D.subst(lambda a, sp=sp: Form.num(sp) if a == ("sym", "sps") else None)
+                vals.append(d_.rational() if isinstance(d_, Form) else None)
+            if all(v is not None for v in vals):
+                ctx.check("C20.5", all(v >= -1 for v in vals), fs_, corr_calls[0].node, f"SYNC: lag window rx[:{wa[2].hi!r}]"[:160], "covers every delay 0 .. l-1 (W >= 2*l - 1)",
+                          f"the correlation only searches the lags 0 .. W-l with W - 2*l = {D!r}: delays in the last part of the pattern are never found (the index returned for them is wrong, silently)")
+            else:
+                ctx.unknown("C20.5", fs_, corr_calls[0].node, "SYNC: lag window", f"window length {wa[2].hi!r} not comparable with the pattern length")
+        elif wa is not None and wa[0] == "sym":
+            ctx.holds("C20.5", fs_, corr_calls[0].node, "SYNC: lag window = the whole record", "covers every delay the record allows")
+        else:
+            ctx.unknown("C20.5", fs_, corr_calls[0].node, "SYNC: lag window", "window of the correlation not identified")
     if len(rets) == 1 and isinstance(rets[0].value, TupleV) and len(rets[0].value.items) == 2:
         sig, idx = rets[0].value.items
         ia = idx.single_atom() if isinstance(idx, Form) else None
@@ -325,7 +355,7 @@ def run(ctx):
     ctx.require_min("C20.2", 5)
     ctx.require_min("C20.3", 1)
     ctx.require_min("C20.4", 1)
-    ctx.require_min("C20.5", 3)
+    ctx.require_min("C20.5", 4)
 
 
 def _framing_by_value(ctx, sd):
